@@ -20,6 +20,43 @@ def unwrap(value, ctor):
     return None
 
 
+def wraps_match_in_ok(prog, fn):
+    """`let v = match x { a => V1, .., _ => return Err(e) }; Ok(v)`: every `Ok(..)` the function returns carries only enum variants
+    chosen by the match (no call, no other data) — the table's arms may then be read as if each were written `Ok(Vi)`."""
+    from . import core
+    b = prog.bodies.get(fn)
+    if b is None:
+        return False
+    n = 0
+    for ob in core.ok_return_blocks(b, "Ok"):
+        for s_ in b.blocks[ob]["stmts"]:
+            rv = s_.get("rv")
+            if rv and rv.get("k") == "agg" and rv.get("variant") == "Ok" and s_["pl"]["l"] == 0 and not s_["pl"]["p"] and rv["ops"]:
+                d = core.describe(prog, b, rv["ops"][0])
+                alts = d[1] if isinstance(d, tuple) and d[0] == "multi" else [d]
+                if not all(isinstance(a, tuple) and a[0] == "variant" and not a[3] for a in alts):
+                    return False
+                n += 1
+    return n > 0
+
+
+def unwrap_arm(prog, fn, value, ctor="Ok"):
+    """unwrap(value, ctor), or the bare variant path of an arm of a match whose result the function wraps in Ok(..) afterwards"""
+    inner = unwrap(value, ctor)
+    if inner is not None:
+        return inner
+    if value and value[0] == "path" and ctor == "Ok" and wraps_match_in_ok(prog, fn):
+        return value
+    return None
+
+
+def is_err_arm(value):
+    """`Err(e)` as the arm's value, or `return Err(e)` from the arm"""
+    if value and value[0] == "ret":
+        value = value[1]
+    return bool(value) and value[0] == "call" and norm_path(value[1]) == "Err"
+
+
 def scrutinee_chain(m):
     """Method names applied on the way from the base expression to the scrutinee, and the base."""
     e = hir_strip(m["scrut"])
